@@ -163,6 +163,18 @@ func genC08(tier, out string, sum *Summary) {
 			sum.direct("category", f.expr, docs[0], "expected a "+f.cat+" error on at least one of the two fault documents, got none")
 		}
 	}
+	// a fault in every argument position of every built-in
+	for _, af := range argFaultFamily() {
+		want := af.want
+		if af.fn == "not_null" {
+			want = ""
+		}
+		sum.count("arg-fault")
+		o := check(af.expr, af.doc, want, false)
+		if want != "" && o.Kind != "err" {
+			sum.direct("category", af.expr, af.doc, "an argument fails with "+want+" but the call returns "+describe(o))
+		}
+	}
 	// every combination of two constructs with failing operands: whatever fails obeys the contract (nil result,
 	// exactly one category, Compile = Search for static faults, compiled expressions never report static ones)
 	for i, sc := range smallScope(ssCfg{funcs: true, lets: true, errs: true, bools: true}, 1, 2000) {
